@@ -81,7 +81,9 @@ fn spawn_shard(plan: &RunPlan, work: &str, serial: usize, from: u64, to: u64) ->
     let cur = format!("{}/shard-{}.cur", work, serial);
     let out = format!("{}/shard-{}.out", work, serial);
     let _ = std::fs::remove_file(&out);
-    let mut cmd = Command::new(exe_for(&plan.profile));
+    // an address-space limit, so that a runaway allocation aborts one shard instead of the machine
+    let mut cmd = Command::new("/bin/sh");
+    cmd.arg("-c").arg("ulimit -v 12000000; exec \"$0\" \"$@\"").arg(exe_for(&plan.profile));
     cmd.arg("shard")
         .arg("--engine").arg(plan.info.name)
         .arg("--tier").arg(plan.tier.name())
